@@ -68,3 +68,28 @@ Proof. split; [apply check_topo_sound; vm_compute; reflexivity|vm_compute; refle
 Theorem gen_ucat_area_eq : forall outs ds sq area, gen_ucat_area outs ds sq area = ucat_area ds outs sq area.
 Proof. exact GenUcatEq.gen_ucat_area_eq. Qed.
 Print Assumptions gen_ucat_area_eq.
+
+(* THE CHANNEL SLOPE (arithmetics.lstsq behind subgrid.segment_slope / fixed_length_slope): over exact rationals the fitted line
+   satisfies the normal equations and MINIMISES the squared error among all lines, whenever two points have different
+   abscissae (distances along a river strictly increase); the denominator of the source is the sum of the squared pairwise
+   differences of the abscissae; points on a line are fitted exactly; with two points the least-squares slope is the
+   two-point ('mean') slope *)
+From Coq Require Import QArith.
+From PF Require Import Lstsq LstsqSpec.
+Local Open Scope Q_scope.
+Theorem lstsq_optimal : forall pts, ~ lsq_n pts * Sxx pts - Sx pts * Sx pts == 0 ->
+  forall a' b', SSE pts (fst (lstsq pts)) (snd (lstsq pts)) <= SSE pts a' b'.
+Proof. exact LstsqSpec.lstsq_optimal. Qed.
+Print Assumptions lstsq_optimal.
+Theorem lstsq_denominator_nonzero_iff : forall pts,
+  ~ lsq_n pts * Sxx pts - Sx pts * Sx pts == 0 <-> exists p q, In p pts /\ In q pts /\ ~ fst p == fst q.
+Proof. exact LstsqSpec.lstsq_denominator_nonzero_iff. Qed.
+Print Assumptions lstsq_denominator_nonzero_iff.
+Theorem lstsq_exact_line : forall pts a b, (forall p, In p pts -> snd p == a * fst p + b) ->
+  (exists p q, In p pts /\ In q pts /\ ~ fst p == fst q) -> fst (lstsq pts) == a /\ snd (lstsq pts) == b.
+Proof. exact LstsqSpec.lstsq_exact_line. Qed.
+Print Assumptions lstsq_exact_line.
+Theorem lstsq_two_points : forall x1 y1 x2 y2, ~ x1 == x2 ->
+  slope_lstsq [(x1, y1); (x2, y2)] == slope_mean [(x1, y1); (x2, y2)].
+Proof. exact LstsqSpec.lstsq_two_points. Qed.
+Print Assumptions lstsq_two_points.
